@@ -248,6 +248,59 @@ func btreeHistory(r *ev.Run, rng *rand.Rand, degree, universe, nops int) bool {
 				m.t.Clear(rng.Intn(2) == 0)
 				m.s = nil
 				r.Count("btree_clear", 1)
+			case x == 8 && n%7 == 0: // burst: one long-lived tree shrinks to (almost) nothing and grows again
+				// (freed nodes of all shapes are recycled from the free list into other positions)
+				log = append(log, btOp{ti, "burst-drain", len(m.s)})
+				keep := rng.Intn(3)
+				for len(m.s) > keep && c == "" {
+					var got btree.Item
+					var want *bitem
+					switch rng.Intn(3) {
+					case 0:
+						got = m.t.DeleteMin()
+						want, m.s = m.s[0], append([]*bitem(nil), m.s[1:]...)
+					case 1:
+						got = m.t.DeleteMax()
+						want, m.s = m.s[len(m.s)-1], append([]*bitem(nil), m.s[:len(m.s)-1]...)
+					default:
+						i := rng.Intn(len(m.s))
+						want = m.s[i]
+						got = m.t.Delete(&bitem{k: want.k})
+						m.s = append(append([]*bitem(nil), m.s[:i]...), m.s[i+1:]...)
+					}
+					if got == nil || got.(*bitem) != want {
+						c, w = "btree:delete", fmt.Sprintf("delete during a drain returned %s, sorted slice says %s", itemStr(got), bStr(want))
+					}
+				}
+				if c == "" {
+					c, w = m.verifyFull(rng, universe)
+				}
+				target := 2*degree*2 + rng.Intn(universe/2+1)
+				log = append(log, btOp{ti, "burst-fill", target})
+				for tries := 0; len(m.s) < target && tries < 4*universe && c == ""; tries++ {
+					k := rng.Intn(universe)
+					i, ok := m.pos(k)
+					if ok {
+						continue
+					}
+					gen++
+					it := &bitem{k: k, gen: gen}
+					ns := make([]*bitem, 0, len(m.s)+1)
+					ns = append(append(append(ns, m.s[:i]...), it), m.s[i:]...)
+					m.s = ns
+					if got := m.t.ReplaceOrInsert(it); got != nil {
+						c, w = "btree:replace-or-insert", fmt.Sprintf("ReplaceOrInsert(%d) of an absent key returned %s", k, itemStr(got))
+					}
+					if c == "" && tries%5 == 0 {
+						if c, w = m.verifyKey(k); c == "" && len(m.s) > 0 {
+							c, w = m.verifyAt(rng.Intn(len(m.s)))
+						}
+					}
+				}
+				if c == "" {
+					c, w = m.verifyFull(rng, universe)
+				}
+				r.Count("btree_drain_refill_bursts", 1)
 			case x < 8: // delete min / max
 				var got btree.Item
 				var want *bitem
